@@ -113,7 +113,7 @@ public:
                                     unsigned int currentLoop,
                                     unsigned int& nextState,
                                     unsigned int& nextLoop,
-                                    XMLSize_t elementIndex,
+                                    XMLSize_t& elementIndex,
                                     SubstitutionGroupComparator * comparator) const;
 
 private :
